@@ -1,11 +1,12 @@
 SPECIFICATION Spec
 CONSTANTS
-  Ns = {5}
-  Vals = {1, 2}
+  Ns = {1, 2, 3, 4}
+  Vals = {1, 2, 3}
   Primes = {2, 3}
-  ThEvery = 4
+  SampleEvery = 1
+  ThEvery = 3
   ThDefEvery = 1
-  ThDefMaxN = 0
+  ThDefMaxN = 3
 INVARIANT InvFlag
 INVARIANT InvChainComplex
 INVARIANT InvDefAlg
